@@ -121,6 +121,16 @@ MODULE_LEVEL = [
     ("Imp1 DEFINITIONS AUTOMATIC TAGS ::= BEGIN IMPORTS X, Y FROM Other Z FROM Third { iso(1) 5 }; A ::= BOOLEAN END",
      {"name": "Imp1", "oid": [], "imports": [{"what": ["X", "Y"], "from": "Other", "oid": []},
                                               {"what": ["Z"], "from": "Third", "oid": [["both", "iso", 1], ["number", "", 5]]}], "ndefs": 1, "values": []}),
+    # every order of clauses with and without an object identifier (state must not carry over from clause to clause)
+    ("Imp2 DEFINITIONS AUTOMATIC TAGS ::= BEGIN IMPORTS Z FROM Third { iso(1) 5 } X, Y FROM Other W FROM Last { iso 7 } V FROM Plain; A ::= BOOLEAN END",
+     {"name": "Imp2", "oid": [], "imports": [{"what": ["Z"], "from": "Third", "oid": [["both", "iso", 1], ["number", "", 5]]},
+                                              {"what": ["X", "Y"], "from": "Other", "oid": []},
+                                              {"what": ["W"], "from": "Last", "oid": [["name", "iso", 0], ["number", "", 7]]},
+                                              {"what": ["V"], "from": "Plain", "oid": []}], "ndefs": 1, "values": []}),
+    ("Imp3 { iso(1) 2 } DEFINITIONS AUTOMATIC TAGS ::= BEGIN IMPORTS a, B FROM One { iso(1) 1 } c FROM Two d FROM Three; A ::= BOOLEAN END",
+     {"name": "Imp3", "oid": [["both", "iso", 1], ["number", "", 2]],
+      "imports": [{"what": ["a", "B"], "from": "One", "oid": [["both", "iso", 1], ["number", "", 1]]},
+                  {"what": ["c"], "from": "Two", "oid": []}, {"what": ["d"], "from": "Three", "oid": []}], "ndefs": 1, "values": []}),
     ("Val1 DEFINITIONS AUTOMATIC TAGS ::= BEGIN a INTEGER ::= 5 b INTEGER ::= -7 c BOOLEAN ::= TRUE d UTF8String ::= \"hi\" A ::= INTEGER (a..10) END",
      {"name": "Val1", "oid": [], "imports": [], "ndefs": 1,
       "values": [{"name": "a", "v": {"k": "int", "v": 5}}, {"name": "b", "v": {"k": "int", "v": -7}}, {"name": "c", "v": {"k": "bool", "v": True}},
